@@ -61,7 +61,10 @@ pub fn isolate<S: Serialize + Clone + Send + 'static>(
                 return match r {
                     Ok(r) => r,
                     Err((loc, msg)) => {
-                        if crate::harness::is_decoder_location(&loc) {
+                        // a panic in std / a dependency with no decoder function on the stack comes
+                        // from the harness itself (thread spawn failure, say), not from the decoder
+                        let in_repo = loc.starts_with(&format!("{}/", crate::harness::repo_root())) || loc.starts_with("/repo/");
+                        if crate::harness::is_decoder_location(&loc) && (in_repo || loc.contains('@')) {
                             Err(Violation {
                                 property: property.into(),
                                 check: check.into(),
@@ -95,7 +98,8 @@ pub fn isolate<S: Serialize + Clone + Send + 'static>(
                     }
                     // streams with patches block inside pool tasks (finding F23): keep that apart
                     let scenario = serde_json::to_value(sc).unwrap();
-                    let tag = if serde_json::to_string(&scenario).map(|j| j.contains("\"patches\":{")).unwrap_or(false) { "+patches" } else { "" };
+                    let js = serde_json::to_string(&scenario).unwrap_or_default();
+                    let tag = format!("{}{}", if js.contains("\"patches\":{") { "+patches" } else { "" }, if js.contains("\"kind\":\"LfFrame\"") { "+lff" } else { "" });
                     return Err(Violation {
                         property: property.into(),
                         check: check.into(),
@@ -140,7 +144,7 @@ pub fn panic_class(loc: &str, msg: &str) -> String {
 
 pub fn strip_tags(class: &str) -> String {
     let mut c = class.to_string();
-    for t in ["+vardct", "+patches", "+splines"] {
+    for t in ["+vardct", "+patches", "+splines", "+lff"] {
         c = c.replace(t, "");
     }
     c
